@@ -477,3 +477,7 @@ def check(run):
     # the ~ and ^ branches raise their violation inside the try that swallows argument failures: only the entry that
     # handle_error records before raising makes the final raise_error() reject
     run.rule(c10.r10c, run)
+    # an error is handed to the context whose owner flushes it (a violation reported on a throw-away child layer is lost)
+    from . import c04
+    run.rules_run.append("R10e")
+    run.rule(c10.r10e, run, c04.in_scope_functions(run))
